@@ -403,10 +403,12 @@ def e2eCore (dim : Nat) (sizeScale vrel : Rat) (o : ROpts) (out : List String) :
         if !vnear N1 N2.neg (tol5 * 10) then "fail normals-not-opposite" else
         -- the witnesses are `target` apart, along normal1
         let D := W2.sub W1
-        -- (a wrong gap ALONG the normal and a tangential slide on parallel features are different failures: only the
-        --  second one is the recorded known finding of gjk::directional_distance)
-        if rabs (D.dot N1 - o.target) > gtol then s!"fail witness-gap-along-normal-is-not-target gap·n={D.dot N1} target={o.target}" else
-        if !vnear D (N1.smul o.target) gtol then s!"fail witnesses-not-target-apart-along-normal[tangential-slide] |gap|²={D.normSq}" else "pass"
+        -- (the recorded known finding of gjk::directional_distance: witnesses rebuilt from a non-unique barycentric
+        --  combination on parallel features, off by a rounding-independent amount.  A different failure has its own tag:
+        --  with target > 0 the two witnesses COINCIDE along the normal, i.e. witness1 was left on the inflated surface.)
+        if o.target > gtol * 4 ∧ rabs (D.dot N1) ≤ gtol ∧ (D.sub (N1.smul (D.dot N1))).normSq ≤ gtol * gtol then
+          s!"fail witness1-left-on-the-inflated-surface gap·n={D.dot N1} target={o.target}" else
+        if !vnear D (N1.smul o.target) gtol then s!"fail witnesses-not-target-apart-along-normal |gap|²={D.normSq}" else "pass"
       if bad toi then "fail nonfinite-toi" else
       if bad dt ∨ ds.any bad ∨ bad d0 then "skip distance-unsupported" else
       let T := q toi
